@@ -3,7 +3,7 @@
 From Coq Require Import String.
 From Coq Require Import List ZArith NArith Bool.
 From Coq Require Import Strings.Byte.
-From Paloma Require Import Base.Corr Base.Num Cons.Median Cons.Quorum Cons.EvidenceBytes.
+From Paloma Require Import Base.Corr Base.Num Cons.Median Cons.Quorum Cons.EvidenceBytes Cons.EvidenceHistory.
 From Paloma Require Gen.C04.
 Import ListNotations.
 Open Scope Z_scope.
@@ -133,20 +133,23 @@ Definition es_eqb (a b : estimate) : bool := (es_val a =? es_val b) && (es_value
 Definition ev_at (proofs : list cproof) (v idx : Z) : evidence :=
   ev_of {| pe_val := v; pe_proof := proof_of (nth (Z.to_nat idx) proofs CPNone) |}.
 
-Fixpoint arun (sn : snapshot) (proofs : list cproof) (evs : list evidence) (ops : list aop) : bool :=
+(** Same step function as the theorems' histories (EvidenceHistory.att_step), with the ideal pair key. *)
+Definition astep := att_step ikeqb (fun t d : Z => (t, d)).
+
+Fixpoint arun (sn : snapshot) (proofs : list cproof) (s : att_state) (ops : list aop) : bool :=
   match ops with
   | [] => true
   | ASubmit v idx ok :: r =>
-      let e := ev_at proofs v idx in
-      if ev_bad e then negb ok && arun sn proofs evs r
-      else ok && arun sn proofs (add_evidence evs e) r
+      let e := {| pe_val := v; pe_proof := proof_of (nth (Z.to_nat idx) proofs CPNone) |} in
+      Bool.eqb (hashable (pe_proof e)) ok && arun sn proofs (astep s (AoSubmit e)) r
   | AProcess got :: r =>
-      match verify_evidence ikeqb ikey (fun g => g) sn evs with
-      | Winner w =>
+      let s' := astep s (AoProcess sn (fun g => g)) in
+      match as_won s' with
+      | Some w =>
           ((got =? -3) ||
            ((0 <=? got) && let g := ev_at proofs 0 got in (ev_tag w =? ev_tag g) && (ev_data w =? ev_data g)))
           && match r with [] => true | _ => false end
-      | _ => (got =? -1) && arun sn proofs evs r
+      | None => (got =? -1) && arun sn proofs s' r
       end
   end.
 
@@ -190,5 +193,5 @@ Definition check (c : case) : bool :=
       | NotAchieved => got =? -1
       | Failed => got =? -2
       end
-  | CAttest sn total proofs ops => arun {| sn_vals := sn; sn_total := total |} proofs [] ops
+  | CAttest sn total proofs ops => arun {| sn_vals := sn; sn_total := total |} proofs att_init ops
   end.
